@@ -461,6 +461,26 @@ let cmd_ghws (args : string list) : string =
        "tt=" ^ tt_obs tt ^ Stdlib.String.concat "" obs)
   | _ -> "BADCASE"
 
+
+(* ---- ghwreg <max id> <min:max:bin,...> ---- *)
+let cmd_ghwreg (args : string list) : string =
+  match args with
+  | [max_id; reqs] ->
+    let ops = Stdlib.List.map (fun s ->
+      match Stdlib.String.split_on_char ':' s with
+      | [mn; mx; b] ->
+        (* ids are 1-based in the file; the tracker works with 0-based indices; id 0 panics *)
+        let mn = int_of_string mn and mx = int_of_string mx in
+        if mn = 0 || mx = 0 then raise Model_panic;
+        ((nat_of_int (mn - 1), nat_of_int (mx - 1)), b = "1")
+      | _ -> failwith "bad req") (split_on ',' reqs) in
+    let (t, refs) = get (GhwAlias.register_all (GhwAlias.tr_new (nat_of_int (int_of_string max_id))) ops) in
+    let r = Stdlib.String.concat "," (Stdlib.List.map (fun x -> string_of_int (int_of_nat x)) refs) in
+    let tb = Stdlib.List.map (fun a -> Printf.sprintf "%d:%d:%d:%d" (int_of_nat a.GhwAlias.ai_ref)
+               (int_of_nat a.GhwAlias.ai_msb) (int_of_nat a.GhwAlias.ai_lsb) (int_of_nat a.GhwAlias.ai_sliced)) t.GhwAlias.tr_aliases in
+    "refs=" ^ r ^ " aliases=" ^ (if tb = [] then "-" else Stdlib.String.concat "," tb)
+  | _ -> "BADCASE"
+
 let dispatch (cmd : string) (args : string list) : string =
   match cmd with
   | "offsets" -> cmd_offsets args
@@ -474,6 +494,7 @@ let dispatch (cmd : string) (args : string list) : string =
   | "loadseq" -> cmd_loadseq args
   | "py" -> cmd_py args
   | "ghws" -> cmd_ghws args
+  | "ghwreg" -> cmd_ghwreg args
   | "vcd" -> cmd_vcd args
   | _ -> "UNSUPPORTED"
 
